@@ -123,6 +123,19 @@ func singleOpBlocks(ops []engb.LOp, dts []int64) []engb.LBlock {
 // runConformance replays the collected Engine-B traces through the real block pipeline.
 func runConformance(r *mc.Run, c lockCfg, e *engb.Explorer) {
 	paths := e.ConformancePaths
+	// actual explored histories as evidence samples (the longest ones collected)
+	best := [][]engb.LBlock{}
+	for _, p := range paths {
+		if len(best) < 2 || len(p) > len(best[0]) {
+			best = append([][]engb.LBlock{p}, best...)
+			if len(best) > 2 {
+				best = best[:2]
+			}
+		}
+	}
+	for _, p := range best {
+		r.Sample(map[string]any{"config": c.Name, "explored_history": pathStrings(p)})
+	}
 	var done, failed atomic.Int64
 	mc.Parallel(len(paths), runtime.NumCPU(), func(i int) {
 		if r.Expired() {
